@@ -260,6 +260,7 @@ def plan(tier, seed):
     p.append(("fixed_point", dict(skeleton="TX", mode="each")))
     p.append(("fixed_point", dict(skeleton="TX", mode="reads", args={"shared": True})))
     p.append(("fixed_point", dict(skeleton="TX", mode="each", args={"same_names": True})))
+    p.append(("fixed_point", dict(skeleton="T4", mode="each", args={"repeat": True})))
     p.append(("fixed_point", dict(skeleton="T1", mode="inputs")))
     p.append(("plots", dict(skeleton="T1", with_simulation=True)))
     p.append(("plots", dict(skeleton="T3", n=2, with_simulation=False)))
